@@ -121,6 +121,15 @@ CLAIMS = {
              "the code with every public accessor called, and Contract.tla decides each recorded execution (no internal error escapes; "
              "unparsable text never yields a result; invalid syntax only for text the parser rejects).",
         note="trusted: TLC, sqlfluff called directly as the judge of 'cannot parse', the mutator; totality over all strings is sampled, not enumerated"),
+    "C11": dict(
+        design="5/C11",
+        technique="TLA+ model checking (TLC) of Accessors.tla (every call sequence incl. caller-side mutation) + replay of TLC call sequences on real runners + hash-seed subprocess matrix, all recorded answers/dumps decided by TLC (Trace_Accessors)",
+        text="TLC checks AccessorsIdempotentAnyOrder over every sequence of <= 3 (thorough 4) calls of 10 accessors with optional mutation of "
+             "the returned object, and prints the sequences; each is replayed on a fresh real LineageRunner per script and every answer is "
+             "compared by TLC with the single-call reference. The same corpus / generated scripts are dumped (every public accessor) in "
+             "subprocesses started with PYTHONHASHSEED in 4 (thorough 32) seeds and TLC requires identical canonical dumps.",
+        note="trusted: TLC, the canonical dump (anonymous subquery names and the order they induce are canonicalised, as the statement allows); "
+             "determinism across seeds is a differential check of the code against itself - the specification contributes the accessor model"),
 }
 
 NOT_YET = "check not built yet in this round; planned as described in DESIGN.md section 5"
